@@ -3,6 +3,7 @@ Specification of the translated `service.ringCopy` (`service/buffer.go:644`):
 `Service.ringCopy fuel dst src start` copies `src` into the ring `dst` beginning at
 `start` and wrapping around at the end of `dst`.
 -/
+import Mqtt.Proofs.RingCopied
 import Mqtt.Generated.Xlate
 import Mqtt.Model.Ring
 
@@ -43,12 +44,6 @@ theorem loop1_step0 (f : Nat) (dst src : List UInt8) (n : Int) (i l : Nat)
   have := loop1_step f dst src 0 n i l hn hi (by omega)
   simpa using this
 
-/-- `dst` after `ringCopy dst src s`, written out -/
-def copied (dst src : List UInt8) (s : Nat) : List UInt8 :=
-  if src.length ≤ dst.length - s then dst.take s ++ (src ++ dst.drop (s + src.length))
-  else src.drop (dst.length - s) ++
-    ((dst.take s).drop (src.length - (dst.length - s)) ++ src.take (dst.length - s))
-
 theorem ringCopy_eq (fuel : Nat) (hf : 3 ≤ fuel) (dst src : List UInt8) (s : Nat)
     (hD : 0 < dst.length) (hS : src.length ≤ dst.length) (hs : s ≤ dst.length) :
     Service.ringCopy fuel dst src (s : Int) = Res.ok (copied dst src s, src.length) := by
@@ -86,56 +81,6 @@ theorem ringCopy_eq (fuel : Nat) (hf : 3 ≤ fuel) (dst src : List UInt8) (s : N
       rw [e2, e3, ← hd1, e1, List.append_nil, Nat.zero_add, List.drop_zero,
         List.drop_append_of_le_length (by simp; omega)]
       simp [copied, hc]
-
-theorem copied_length (dst src : List UInt8) (s : Nat)
-    (hS : src.length ≤ dst.length) (hs : s ≤ dst.length) :
-    (copied dst src s).length = dst.length := by
-  unfold copied
-  split <;> simp <;> omega
-
-/-- position by position, without `%` -/
-theorem copied_getElem? (dst src : List UInt8) (s : Nat)
-    (hS : src.length ≤ dst.length) (hs : s ≤ dst.length) (p : Nat) (hp : p < dst.length) :
-    (copied dst src s)[p]? =
-      if s ≤ p ∧ p < s + src.length then src[p - s]?
-      else if p + dst.length < s + src.length then src[p + dst.length - s]?
-      else dst[p]? := by
-  unfold copied
-  by_cases hc : src.length ≤ dst.length - s
-  · rw [if_pos hc]
-    by_cases h1 : p < s
-    · rw [List.getElem?_append_left (by simp; omega), List.getElem?_take_of_lt h1,
-        if_neg (by omega), if_neg (by omega)]
-    · rw [List.getElem?_append_right (by simp; omega)]
-      have hl : (List.take s dst).length = s := by simp; omega
-      rw [hl]
-      by_cases h2 : p < s + src.length
-      · rw [List.getElem?_append_left (by omega), if_pos ⟨by omega, h2⟩]
-      · rw [List.getElem?_append_right (by omega), List.getElem?_drop,
-          if_neg (by omega), if_neg (by omega)]
-        congr 1; omega
-  · rw [if_neg hc]
-    have hl1 : (List.drop (dst.length - s) src).length = src.length - (dst.length - s) := by simp
-    have hl2 : (List.drop (src.length - (dst.length - s)) (List.take s dst)).length =
-        s - (src.length - (dst.length - s)) := by simp; omega
-    by_cases h1 : p < src.length - (dst.length - s)
-    · rw [List.getElem?_append_left (by omega), List.getElem?_drop,
-        if_neg (by omega), if_pos (by omega)]
-      congr 1; omega
-    · rw [List.getElem?_append_right (by omega), hl1]
-      by_cases h2 : p < s
-      · rw [List.getElem?_append_left (by omega), List.getElem?_drop,
-          List.getElem?_take_of_lt (by omega), if_neg (by omega), if_neg (by omega)]
-        congr 1; omega
-      · rw [List.getElem?_append_right (by omega), hl2, List.getElem?_take_of_lt (by omega),
-          if_pos ⟨by omega, by omega⟩]
-        congr 1; omega
-
-theorem add_mod_wrap {s j D : Nat} (hs : s ≤ D) (hj : j < D) :
-    (s + j) % D = if s + j < D then s + j else s + j - D := by
-  by_cases h : s + j < D
-  · rw [if_pos h, Nat.mod_eq_of_lt h]
-  · rw [if_neg h, Nat.mod_eq_sub_mod (by omega), Nat.mod_eq_of_lt (by omega)]
 
 /-! ### the specification -/
 
